@@ -12,6 +12,11 @@ type loop struct {
 	continuePos []int
 	breakPos    []int
 	isRangeLoop bool
+	// pending is the number of values that the code being compiled inside
+	// the loop body currently keeps on the stack above the body's own level
+	// (the value a switch statement is switching on). A break or continue
+	// has to discard them before it jumps.
+	pending int
 }
 
 func (l *loop) end() {
